@@ -247,7 +247,11 @@ class StationaryVelocityFieldTransform(DenseVectorFieldTransform):
     def grid_(self, grid: Grid) -> StationaryVelocityFieldTransform:
         r"""Set sampling grid of transformation domain and codomain."""
         super().grid_(grid)
-        self.exp.align_corners = grid.align_corners()
+        # The ExpFlow module may be shared with the transformation this one is a shallow copy of
+        # (cf. grid()): replace it instead of modifying it in place.
+        exp = shallow_copy(self.exp)
+        exp.align_corners = grid.align_corners()
+        self.exp = exp
         return self
 
     def inverse(
